@@ -373,6 +373,14 @@ def closed_form(ctx, cls, dim):
     ctx.ensure("cor(h)=rho(h)", ctx.eq(mod.cor(x), rho))
 
 
+@contract(P, "models.cor/documented-closed-form[thorough]",
+          params=[{"cls": c, "dim": d} for c in RHO for d in (2, 3)
+                  if c not in ("HyperSpherical", "SuperSpherical", "JBessel", "TPLSimple")],
+          functions=["covmodel/models.py:<cls>.cor"], timeout=60, tiers=("thorough",))
+def closed_form_thorough(ctx, cls, dim):
+    closed_form(ctx, cls, dim)
+
+
 @contract(P, "models.default_rescale/documented", params={"cls": list(RHO) + ["TPLGaussian", "TPLExponential", "TPLStable"]},
           functions=["covmodel/models.py:<cls>.default_rescale"])
 def default_rescale(ctx, cls):
@@ -468,6 +476,17 @@ def integral_scale(ctx, cls):
     mod2 = _quiet(getattr(gs, cls), dim=1, var=v, len_scale=k * l, nugget=n, rescale=s, **opt)
     ctx.ensure("homogeneous-degree-1", ctx.eq(mod2.calc_integral_scale(), k * got))
     ctx.ensure("positive", ctx.gt(got, 0))
+    # the reported integral scale follows later parameter changes (no stale value)
+    s2 = ctx.real("resc2", pos=True)
+    ctx.require(ctx.gt(s2, 0))
+    mod.rescale = s2
+    ctx.ensure("after-rescale-change", ctx.And(ctx.eq(mod.integral_scale, ISCALE[cls](ctx, l / s2, opt)),
+                                               ctx.eq(mod.integral_scale_vec[0], ISCALE[cls](ctx, l / s2, opt))))
+    mod.len_scale = k * l
+    ctx.ensure("after-len_scale-change", ctx.eq(mod.integral_scale, ISCALE[cls](ctx, k * l / s2, opt)))
+    if cls in ("Gaussian", "Exponential", "Stable"):
+        _quiet(setattr, mod, "dim", 3)
+        ctx.ensure("after-dim-change", ctx.eq(mod.integral_scale, ISCALE[cls](ctx, k * l / s2, opt)))
 
 
 @contract(P, "covmodel.tools.percentile_scale/root-of-1-correlation-per",
